@@ -1,19 +1,1057 @@
-"""C17 - XML-RPC commands are gated by Supvisors state and fail cleanly."""
+"""C17 - XML-RPC commands are gated by Supvisors state and fail cleanly.
+
+Statement: 'Each XML-RPC is served only in its documented Supvisors states - status queries from DISTRIBUTION on,
+start/restart/test_start/update_numprocs/enable/disable/restart_sequence in OPERATION only, stop requests in OPERATION
+or CONCILIATION, conciliate in CONCILIATION, end_sync in SYNCHRONIZATION with the USER option, restart/shutdown from
+DISTRIBUTION on - and otherwise raises BAD_SUPVISORS_STATE without any effect. Unknown application, process or
+instance names raise BAD_NAME, unknown strategies INCORRECT_PARAMETERS, unmanaged applications NOT_MANAGED, and a
+rejected request emits no start, stop or state change.'
+
+The FSM state is a symbolic member of SupvisorsStates: every contract below is proved for the nine states at once.
+"""
 from pyvc.spec import *
+from supervisor.options import split_namespec
+
+BAD_STATE = SupvisorsFaults.BAD_SUPVISORS_STATE.value
+NOT_MANAGED = SupvisorsFaults.NOT_MANAGED.value
+NOT_APPLICABLE = SupvisorsFaults.NOT_APPLICABLE.value
+# the fault codes of a *rejected* request (statement: 'a rejected request emits no start, stop or state change')
+REJECTED = (SupvisorsFaults.BAD_SUPVISORS_STATE.value, SupvisorsFaults.NOT_MANAGED.value, Faults.BAD_NAME,
+            Faults.INCORRECT_PARAMETERS)
+
+FROM_DISTRIBUTION = (SupvisorsStates.DISTRIBUTION, SupvisorsStates.OPERATION, SupvisorsStates.CONCILIATION,
+                     SupvisorsStates.RESTARTING, SupvisorsStates.SHUTTING_DOWN)
+OPERATION_CONCILIATION = (SupvisorsStates.OPERATION, SupvisorsStates.CONCILIATION)
 
 
+# ------------------------------------------------------------------------------------------ structural validity
+def valid(rpc):
+    """Structural validity the code relies on everywhere (DESIGN 1.4, last bullet; established by
+    Supvisors.__init__ / SupvisorsStateModes.__init__ / Context.__init__ and kept by add_instance): one global
+    Supvisors structure shared by all components, the local instance has its StateModes entry and a non-empty
+    identifier ('' is the "no Master" value of master_identifier)."""
+    sv = rpc.supvisors
+    return (sv.fsm.supvisors is sv and sv.state_modes.supvisors is sv and sv.context.supvisors is sv
+            and sv.mapper.local_identifier in sv.state_modes.instance_state_modes and sv.mapper.local_identifier != '')
+
+
+def apps_valid(context):
+    """object invariants of the applications held by the Context: ApplicationStatus.__init__ always sets `rules`
+    (the class-level default None is never observable), and an application never stays in the Context without a
+    process (Context.setdefault_process adds the first one at creation, on_process_removed_event deletes an emptied
+    application: 'an update of numprocs cannot leave the application empty ... a remove_group can')"""
+    apps = context.applications
+    return forall(str, lambda n: implies(n in apps, apps[n].rules is not None))
+
+
+def fsm_state(rpc):
+    """the gate input (anchor: fsm.state, rpcinterface.py _check_state), over raw fields"""
+    sv = rpc.supvisors
+    return sv.state_modes.instance_state_modes[sv.mapper.local_identifier].state
+
+
+def rejected_cleanly(exc):
+    """'... raises BAD_SUPVISORS_STATE without any effect', 'a rejected request emits no start, stop or state
+    change': no ghost effect was logged and no pre-existing heap location was written"""
+    return implies(exc.code in REJECTED, no_effect() and unchanged())
+
+
+# ------------------------------------------------------------------------------------------ helpers: state gates
 @contract('rpcinterface:RPCInterface._check_state', props=['C17'])
 class CheckState:
-    """'... and otherwise raises BAD_SUPVISORS_STATE without any effect'"""
+    """'... and otherwise raises BAD_SUPVISORS_STATE without any effect': returns normally iff the FSM state is one of
+    `states`, else raises RPCError(BAD_SUPVISORS_STATE); modifies nothing"""
     raises = ('RPCError',)
     types = {'states': 'List[SupvisorsStates]'}
 
     def modifies(self):
         return []
 
+    def pre_valid(self):
+        return valid(self)
+
     def post_only_in_listed_states(self, states):
-        return self.supvisors.fsm.state_modes.local_state_modes.state in states
+        return fsm_state(self) in states
 
     def exc_RPCError_bad_state(self, states, exc):
-        return (self.supvisors.fsm.state_modes.local_state_modes.state not in states
-                and exc.code == SupvisorsFaults.BAD_SUPVISORS_STATE.value and no_effect())
+        return fsm_state(self) not in states and exc.code == BAD_STATE and no_effect()
+
+
+@contract('rpcinterface:RPCInterface._check_from_distribution', props=['C17'])
+class CheckFromDistribution:
+    """'status queries from DISTRIBUTION on', 'restart/shutdown from DISTRIBUTION on'"""
+    raises = ('RPCError',)
+
+    def modifies(self):
+        return []
+
+    def pre_valid(self):
+        return valid(self)
+
+    def post_state(self):
+        return fsm_state(self) in FROM_DISTRIBUTION
+
+    def exc_RPCError_bad_state(self, exc):
+        return fsm_state(self) not in FROM_DISTRIBUTION and exc.code == BAD_STATE and no_effect()
+
+
+@contract('rpcinterface:RPCInterface._check_operating', props=['C17'])
+class CheckOperating:
+    """'start/restart/test_start/update_numprocs/enable/disable/restart_sequence in OPERATION only'"""
+    raises = ('RPCError',)
+
+    def modifies(self):
+        return []
+
+    def pre_valid(self):
+        return valid(self)
+
+    def post_state(self):
+        return fsm_state(self) == SupvisorsStates.OPERATION
+
+    def exc_RPCError_bad_state(self, exc):
+        return fsm_state(self) != SupvisorsStates.OPERATION and exc.code == BAD_STATE and no_effect()
+
+
+@contract('rpcinterface:RPCInterface._check_operating_conciliation', props=['C17'])
+class CheckOperatingConciliation:
+    """'stop requests in OPERATION or CONCILIATION'"""
+    raises = ('RPCError',)
+
+    def modifies(self):
+        return []
+
+    def pre_valid(self):
+        return valid(self)
+
+    def post_state(self):
+        return fsm_state(self) in OPERATION_CONCILIATION
+
+    def exc_RPCError_bad_state(self, exc):
+        return fsm_state(self) not in OPERATION_CONCILIATION and exc.code == BAD_STATE and no_effect()
+
+
+@contract('rpcinterface:RPCInterface._check_conciliation', props=['C17'])
+class CheckConciliation:
+    """'conciliate in CONCILIATION'"""
+    raises = ('RPCError',)
+
+    def modifies(self):
+        return []
+
+    def pre_valid(self):
+        return valid(self)
+
+    def post_state(self):
+        return fsm_state(self) == SupvisorsStates.CONCILIATION
+
+    def exc_RPCError_bad_state(self, exc):
+        return fsm_state(self) != SupvisorsStates.CONCILIATION and exc.code == BAD_STATE and no_effect()
+
+
+# ------------------------------------------------------------------------------------------ helpers: names
+@contract('rpcinterface:RPCInterface._get_application', props=['C17'])
+class GetApplication:
+    """'Unknown application ... names raise BAD_NAME'"""
+    raises = ('RPCError',)
+
+    def modifies(self):
+        return []
+
+    def post_known(self, application_name, result):
+        apps = self.supvisors.context.applications
+        return application_name in apps and result is apps[application_name]
+
+    def exc_RPCError_bad_name(self, application_name, exc):
+        return (application_name not in self.supvisors.context.applications and exc.code == Faults.BAD_NAME
+                and no_effect())
+
+
+@contract('rpcinterface:RPCInterface._get_process', props=['C17'])
+class GetProcess:
+    """'Unknown ... process ... names raise BAD_NAME'"""
+    raises = ('RPCError',)
+    returns = 'ProcessStatus'
+
+    def modifies(self):
+        return []
+
+    def post_known(self, application, process_name, result):
+        return process_name in application.processes and result is application.processes[process_name]
+
+    def exc_RPCError_bad_name(self, application, process_name, exc):
+        return process_name not in application.processes and exc.code == Faults.BAD_NAME and no_effect()
+
+
+@contract('rpcinterface:RPCInterface._get_application_process', props=['C17'])
+class GetApplicationProcess:
+    """'Unknown application, process ... names raise BAD_NAME': the namespec is split by Supervisor's split_namespec
+    (assumed external, a function of its argument); the group must be a known application and, unless the namespec
+    designates the whole group ('group:*' / 'group:'), the process must be known in that application"""
+    raises = ('RPCError',)
+
+    def modifies(self):
+        return []
+
+    def post_known(self, namespec, result):
+        apps = self.supvisors.context.applications
+        names = split_namespec(namespec)
+        return (names[0] in apps and result[0] is apps[names[0]]
+                and ite(names[1] is None or names[1] == '', result[1] is None,
+                        names[1] in result[0].processes and result[1] is result[0].processes[names[1]]))
+
+    def exc_RPCError_bad_name(self, namespec, exc):
+        apps = self.supvisors.context.applications
+        names = split_namespec(namespec)
+        return (exc.code == Faults.BAD_NAME and no_effect()
+                and (names[0] not in apps
+                     or (names[1] is not None and names[1] != '' and names[1] not in apps[names[0]].processes)))
+
+
+# ------------------------------------------------------------------------------------------ helpers: strategies
+def valid_strategy(strategy, klass):
+    """'as a string or as a value': a str that is the name of a member, or an int (not a bool) that is the value of a
+    member; anything else is an 'unknown strategy'"""
+    return ((type(strategy) is str and exists(klass, lambda m: m.name == strategy))
+            or (type(strategy) is int and exists(klass, lambda m: m.value == strategy)))
+
+
+def designates(strategy, member):
+    return ((type(strategy) is str and member.name == strategy)
+            or (type(strategy) is int and member.value == strategy))
+
+
+@contract('rpcinterface:RPCInterface._get_strategy', props=['C17'])
+class GetStrategy:
+    """'unknown strategies [raise] INCORRECT_PARAMETERS': member by name or by value, INCORRECT_PARAMETERS for unknown
+    strings, out-of-range ints and every other type (run once per parameter type and per enumeration)"""
+    raises = ('RPCError',)
+    type_variants = [{'strategy': 'str', 'enum_klass': 'class:StartingStrategies'},
+                     {'strategy': 'int', 'enum_klass': 'class:StartingStrategies'},
+                     {'strategy': 'bool', 'enum_klass': 'class:StartingStrategies'},
+                     {'strategy': 'float', 'enum_klass': 'class:StartingStrategies'},
+                     {'strategy': 'List[str]', 'enum_klass': 'class:StartingStrategies'},
+                     {'strategy': 'str', 'enum_klass': 'class:ConciliationStrategies'},
+                     {'strategy': 'int', 'enum_klass': 'class:ConciliationStrategies'},
+                     {'strategy': 'bool', 'enum_klass': 'class:ConciliationStrategies'},
+                     {'strategy': 'float', 'enum_klass': 'class:ConciliationStrategies'},
+                     {'strategy': 'List[str]', 'enum_klass': 'class:ConciliationStrategies'}]
+
+    def modifies(self):
+        return []
+
+    def post_member(self, strategy, enum_klass, result):
+        return isinstance(result, enum_klass) and designates(strategy, result)
+
+    def exc_RPCError_incorrect_parameters(self, strategy, enum_klass, exc):
+        return (not valid_strategy(strategy, enum_klass) and exc.code == Faults.INCORRECT_PARAMETERS
+                and no_effect())
+
+
+@contract('rpcinterface:RPCInterface._get_starting_strategy', props=['C17'])
+class GetStartingStrategy:
+    """'unknown strategies [raise] INCORRECT_PARAMETERS' (StartingStrategies)"""
+    raises = ('RPCError',)
+    type_variants = [{'strategy': 'str'}, {'strategy': 'int'}, {'strategy': 'bool'}, {'strategy': 'float'},
+                     {'strategy': 'List[str]'}]
+    inline = ['rpcinterface:RPCInterface._get_strategy']
+
+    def modifies(self):
+        return []
+
+    def post_member(self, strategy, result):
+        return designates(strategy, result)
+
+    def exc_RPCError_incorrect_parameters(self, strategy, exc):
+        return (not valid_strategy(strategy, StartingStrategies) and exc.code == Faults.INCORRECT_PARAMETERS
+                and no_effect())
+
+
+@contract('rpcinterface:RPCInterface._get_conciliation_strategy', props=['C17'])
+class GetConciliationStrategy:
+    """'unknown strategies [raise] INCORRECT_PARAMETERS' (ConciliationStrategies)"""
+    raises = ('RPCError',)
+    type_variants = [{'strategy': 'str'}, {'strategy': 'int'}, {'strategy': 'bool'}, {'strategy': 'float'},
+                     {'strategy': 'List[str]'}]
+    inline = ['rpcinterface:RPCInterface._get_strategy']
+
+    def modifies(self):
+        return []
+
+    def post_member(self, strategy, result):
+        return designates(strategy, result)
+
+    def exc_RPCError_incorrect_parameters(self, strategy, exc):
+        return (not valid_strategy(strategy, ConciliationStrategies) and exc.code == Faults.INCORRECT_PARAMETERS
+                and no_effect())
+
+
+# ------------------------------------------------------------------------------------------ callees verified here
+@contract('context:Context.get_managed_applications', props=['C17'])
+class GetManagedApplications:
+    """'unmanaged applications [raise] NOT_MANAGED': the managed applications are the known applications whose rules
+    are flagged managed (i.e. that are described in the rules file)"""
+    raises = ()
+
+    def modifies(self):
+        return []
+
+    def pre_valid(self):
+        return apps_valid(self)
+
+    def post_definition(self, result):
+        apps = self.applications
+        return forall(str, lambda n: (n in result) == (n in apps and apps[n].rules.managed))
+
+    def post_same_objects(self, result):
+        return forall(str, lambda n: implies(n in result, result[n] is self.applications[n]))
+
+    def post_fresh(self, result):
+        return was_fresh(result)
+
+
+# ------------------------------------------------------------------------------------------ commands
+def cmd_valid(rpc):
+    return valid(rpc) and apps_valid(rpc.supvisors.context)
+
+
+def known_app(rpc, application_name):
+    return application_name in rpc.supvisors.context.applications
+
+
+def managed_app(rpc, application_name):
+    apps = rpc.supvisors.context.applications
+    return application_name in apps and apps[application_name].rules.managed
+
+
+STRATEGY_CODES = (Faults.INCORRECT_PARAMETERS, Faults.BAD_NAME)
+START_STOP_STATE_EFFECTS = ('starter.start_applications', 'starter.start_application', 'starter.start_process',
+                            'stopper.stop_application', 'stopper.restart_application', 'stopper.stop_process',
+                            'stopper.restart_process', 'commander.next', 'conciliate_conflicts', 'fsm.set_state',
+                            'fsm.next', 'rpc_handler.send_restart_all', 'rpc_handler.send_shutdown_all',
+                            'rpc_handler.send_state_event', 'supervisor_updater.update_numprocs',
+                            'supervisor_updater.enable_program', 'supervisor_updater.disable_program')
+
+
+def code_causes_app(rpc, strategy, application_name, exc):
+    """each rejection code is raised for its documented cause only"""
+    return (implies(exc.code == Faults.INCORRECT_PARAMETERS, not valid_strategy(strategy, StartingStrategies))
+            and implies(exc.code == Faults.BAD_NAME, not known_app(rpc, application_name))
+            and implies(exc.code == NOT_MANAGED, known_app(rpc, application_name)
+                        and not managed_app(rpc, application_name)))
+
+
+@contract('rpcinterface:RPCInterface.start_application', props=['C17'])
+class StartApplication:
+    """'start ... in OPERATION only ... otherwise raises BAD_SUPVISORS_STATE without any effect. Unknown application
+    ... names raise BAD_NAME, unknown strategies INCORRECT_PARAMETERS, unmanaged applications NOT_MANAGED, and a
+    rejected request emits no start, stop or state change'"""
+    raises = ('RPCError',)
+    types = {'wait': 'bool'}
+    type_variants = [{'strategy': 'str'}, {'strategy': 'int'}, {'strategy': 'bool'}, {'strategy': 'float'},
+                     {'strategy': 'List[str]'}]
+
+    def pre_valid(self):
+        return cmd_valid(self)
+
+    def post_served_only_when_acceptable(self, strategy, application_name, old):
+        return (fsm_state(old.self) == SupvisorsStates.OPERATION and valid_strategy(strategy, StartingStrategies)
+                and known_app(old.self, application_name))
+
+    def post_served_only_when_managed(self, application_name, old):
+        return managed_app(old.self, application_name)
+
+    def post_start_requested(self, strategy, application_name, old):
+        return (count_effects('starter.start_application') == 1
+                and designates(strategy, effect_at('starter.start_application', 0)[0])
+                and effect_at('starter.start_application', 0)[1] is old.self.supvisors.context.applications[application_name]
+                and no_effect('stopper.stop_application', 'stopper.stop_process', 'fsm.set_state', 'fsm.next'))
+
+    def exc_RPCError_bad_state(self, exc, old):
+        return (exc.code == BAD_STATE) == (fsm_state(old.self) != SupvisorsStates.OPERATION)
+
+    def exc_RPCError_codes(self, strategy, application_name, exc, old):
+        return code_causes_app(old.self, strategy, application_name, exc)
+
+    def exc_RPCError_invalid_parameters(self, strategy, application_name, exc, old):
+        return implies(fsm_state(old.self) == SupvisorsStates.OPERATION
+                       and not (valid_strategy(strategy, StartingStrategies) and known_app(old.self, application_name)),
+                       exc.code in STRATEGY_CODES)
+
+    def exc_RPCError_unmanaged(self, strategy, application_name, exc, old):
+        return implies(fsm_state(old.self) == SupvisorsStates.OPERATION and valid_strategy(strategy, StartingStrategies)
+                       and known_app(old.self, application_name) and not managed_app(old.self, application_name),
+                       exc.code == NOT_MANAGED)
+
+    def exc_RPCError_rejected_cleanly(self, exc):
+        return rejected_cleanly(exc)
+
+
+@contract('rpcinterface:RPCInterface.test_start_application', props=['C17'])
+class TestStartApplication:
+    """'test_start ... in OPERATION only'; same rejections as start_application; nothing is started or stopped"""
+    raises = ('RPCError',)
+    returns = 'List[Payload]'
+    type_variants = [{'strategy': 'str'}, {'strategy': 'int'}, {'strategy': 'bool'}, {'strategy': 'float'},
+                     {'strategy': 'List[str]'}]
+
+    def pre_valid(self):
+        return cmd_valid(self)
+
+    def post_served_only_when_acceptable(self, strategy, application_name, old):
+        return (fsm_state(old.self) == SupvisorsStates.OPERATION and valid_strategy(strategy, StartingStrategies)
+                and known_app(old.self, application_name))
+
+    def post_served_only_when_managed(self, application_name, old):
+        return managed_app(old.self, application_name)
+
+    def post_prediction_only(self):
+        return (count_effects('starter_model.test_start_application') == 1
+                and all(no_effect(e) for e in START_STOP_STATE_EFFECTS))
+
+    def exc_RPCError_bad_state(self, exc, old):
+        return (exc.code == BAD_STATE) == (fsm_state(old.self) != SupvisorsStates.OPERATION)
+
+    def exc_RPCError_codes(self, strategy, application_name, exc, old):
+        return code_causes_app(old.self, strategy, application_name, exc)
+
+    def exc_RPCError_invalid_parameters(self, strategy, application_name, exc, old):
+        return implies(fsm_state(old.self) == SupvisorsStates.OPERATION
+                       and not (valid_strategy(strategy, StartingStrategies) and known_app(old.self, application_name)),
+                       exc.code in STRATEGY_CODES)
+
+    def exc_RPCError_unmanaged(self, strategy, application_name, exc, old):
+        return implies(fsm_state(old.self) == SupvisorsStates.OPERATION and valid_strategy(strategy, StartingStrategies)
+                       and known_app(old.self, application_name) and not managed_app(old.self, application_name),
+                       exc.code == NOT_MANAGED)
+
+    def exc_RPCError_no_request(self, exc):
+        return all(no_effect(e) for e in START_STOP_STATE_EFFECTS) and rejected_cleanly(exc)
+
+
+@contract('rpcinterface:RPCInterface.stop_application', props=['C17'])
+class StopApplication:
+    """'stop requests in OPERATION or CONCILIATION'; BAD_NAME, NOT_MANAGED; a rejected request emits nothing"""
+    raises = ('RPCError',)
+    types = {'wait': 'bool'}
+
+    def pre_valid(self):
+        return cmd_valid(self)
+
+    def post_served_only_when_acceptable(self, application_name, old):
+        return fsm_state(old.self) in OPERATION_CONCILIATION and known_app(old.self, application_name)
+
+    def post_served_only_when_managed(self, application_name, old):
+        return managed_app(old.self, application_name)
+
+    def post_stop_requested(self, application_name, old):
+        return (count_effects('stopper.stop_application') == 1
+                and effect_at('stopper.stop_application', 0)[0] is old.self.supvisors.context.applications[application_name]
+                and no_effect('starter.start_application', 'starter.start_process', 'fsm.set_state', 'fsm.next'))
+
+    def exc_RPCError_bad_state(self, exc, old):
+        return (exc.code == BAD_STATE) == (fsm_state(old.self) not in OPERATION_CONCILIATION)
+
+    def exc_RPCError_codes(self, application_name, exc, old):
+        return (exc.code != Faults.INCORRECT_PARAMETERS
+                and implies(exc.code == Faults.BAD_NAME, not known_app(old.self, application_name))
+                and implies(exc.code == NOT_MANAGED, known_app(old.self, application_name)
+                            and not managed_app(old.self, application_name)))
+
+    def exc_RPCError_invalid_parameters(self, application_name, exc, old):
+        return implies(fsm_state(old.self) in OPERATION_CONCILIATION and not known_app(old.self, application_name),
+                       exc.code == Faults.BAD_NAME)
+
+    def exc_RPCError_unmanaged(self, application_name, exc, old):
+        return implies(fsm_state(old.self) in OPERATION_CONCILIATION and known_app(old.self, application_name)
+                       and not managed_app(old.self, application_name), exc.code == NOT_MANAGED)
+
+    def exc_RPCError_rejected_cleanly(self, exc):
+        return rejected_cleanly(exc)
+
+
+@contract('rpcinterface:RPCInterface.restart_application', props=['C17'])
+class RestartApplication:
+    """'restart ... in OPERATION only'; 'unmanaged applications [raise] NOT_MANAGED' (also in the method's own
+    docstring: 'SupvisorsFaults.NOT_MANAGED if the application is not Managed in Supvisors')"""
+    raises = ('RPCError',)
+    types = {'wait': 'bool'}
+    type_variants = [{'strategy': 'str'}, {'strategy': 'int'}, {'strategy': 'bool'}, {'strategy': 'float'},
+                     {'strategy': 'List[str]'}]
+
+    def pre_valid(self):
+        return cmd_valid(self)
+
+    def post_served_only_when_acceptable(self, strategy, application_name, old):
+        return (fsm_state(old.self) == SupvisorsStates.OPERATION and valid_strategy(strategy, StartingStrategies)
+                and known_app(old.self, application_name))
+
+    def post_served_only_when_managed(self, application_name, old):
+        return managed_app(old.self, application_name)
+
+    def post_restart_requested(self, strategy, application_name, old):
+        return (count_effects('stopper.restart_application') == 1
+                and designates(strategy, effect_at('stopper.restart_application', 0)[0])
+                and effect_at('stopper.restart_application', 0)[1] is old.self.supvisors.context.applications[application_name]
+                and no_effect('fsm.set_state', 'fsm.next'))
+
+    def exc_RPCError_bad_state(self, exc, old):
+        return (exc.code == BAD_STATE) == (fsm_state(old.self) != SupvisorsStates.OPERATION)
+
+    def exc_RPCError_codes(self, strategy, application_name, exc, old):
+        return code_causes_app(old.self, strategy, application_name, exc)
+
+    def exc_RPCError_invalid_parameters(self, strategy, application_name, exc, old):
+        return implies(fsm_state(old.self) == SupvisorsStates.OPERATION
+                       and not (valid_strategy(strategy, StartingStrategies) and known_app(old.self, application_name)),
+                       exc.code in STRATEGY_CODES)
+
+    def exc_RPCError_unmanaged(self, strategy, application_name, exc, old):
+        return implies(fsm_state(old.self) == SupvisorsStates.OPERATION and valid_strategy(strategy, StartingStrategies)
+                       and known_app(old.self, application_name) and not managed_app(old.self, application_name),
+                       exc.code == NOT_MANAGED)
+
+    def exc_RPCError_rejected_cleanly(self, exc):
+        return rejected_cleanly(exc)
+
+
+# ------------------------------------------------------------------------------------------ process-level commands
+def known_namespec(rpc, namespec):
+    """the namespec designates a known application and, unless it designates the whole group, a known process of it"""
+    apps = rpc.supvisors.context.applications
+    names = split_namespec(namespec)
+    return names[0] in apps and (names[1] is None or names[1] == '' or names[1] in apps[names[0]].processes)
+
+
+def procs_valid(context):
+    """an application never stays in the Context without a process (Context.setdefault_process adds the first one at
+    creation; on_process_removed_event deletes an emptied application: 'an update of numprocs cannot leave the
+    application empty ... a remove_group can induce this situation')"""
+    apps = context.applications
+    return forall(str, lambda n: implies(n in apps, exists(str, lambda p: p in apps[n].processes)))
+
+
+def code_causes_proc(rpc, strategy, namespec, exc):
+    return (implies(exc.code == Faults.INCORRECT_PARAMETERS, not valid_strategy(strategy, StartingStrategies))
+            and implies(exc.code == Faults.BAD_NAME, not known_namespec(rpc, namespec))
+            and exc.code != NOT_MANAGED)
+
+
+@contract('rpcinterface:RPCInterface.start_process', props=['C17'])
+class StartProcess:
+    """'start ... in OPERATION only'; unknown strategy INCORRECT_PARAMETERS, unknown namespec BAD_NAME; a rejected
+    request emits nothing.  (NOT_MANAGED does not apply to process-level commands.)"""
+    raises = ('RPCError',)
+    types = {'wait': 'bool', 'extra_args': 'str'}
+    type_variants = [{'strategy': 'str'}, {'strategy': 'int'}, {'strategy': 'bool'}, {'strategy': 'float'},
+                     {'strategy': 'List[str]'}]
+    loop1_effects = ('starter.start_process',)
+
+    def pre_valid(self):
+        return valid(self) and procs_valid(self.supvisors.context)
+
+    def loop0_inv(self):
+        return True
+
+    def loop0_modifies(self):
+        return []
+
+    def loop1_inv(self):
+        return True
+
+    def post_served_only_when_acceptable(self, strategy, namespec, old):
+        return (fsm_state(old.self) == SupvisorsStates.OPERATION and valid_strategy(strategy, StartingStrategies)
+                and known_namespec(old.self, namespec))
+
+    def post_no_stop_no_state_change(self):
+        return no_effect('stopper.stop_application', 'stopper.stop_process', 'stopper.restart_process',
+                         'stopper.restart_application', 'fsm.set_state', 'fsm.next')
+
+    def exc_RPCError_bad_state(self, exc, old):
+        return (exc.code == BAD_STATE) == (fsm_state(old.self) != SupvisorsStates.OPERATION)
+
+    def exc_RPCError_codes(self, strategy, namespec, exc, old):
+        return code_causes_proc(old.self, strategy, namespec, exc)
+
+    def exc_RPCError_invalid_parameters(self, strategy, namespec, exc, old):
+        return implies(fsm_state(old.self) == SupvisorsStates.OPERATION
+                       and not (valid_strategy(strategy, StartingStrategies) and known_namespec(old.self, namespec)),
+                       exc.code in STRATEGY_CODES)
+
+    def exc_RPCError_rejected_cleanly(self, exc):
+        return rejected_cleanly(exc)
+
+
+@contract('rpcinterface:RPCInterface.test_start_process', props=['C17'])
+class TestStartProcess:
+    """'test_start ... in OPERATION only'; nothing is started or stopped"""
+    raises = ('RPCError',)
+    returns = 'List[Payload]'
+    type_variants = [{'strategy': 'str'}, {'strategy': 'int'}, {'strategy': 'bool'}, {'strategy': 'float'},
+                     {'strategy': 'List[str]'}]
+
+    def pre_valid(self):
+        return valid(self) and procs_valid(self.supvisors.context)
+
+    def loop0_inv(self):
+        return True
+
+    def loop0_modifies(self):
+        return []
+
+    def post_served_only_when_acceptable(self, strategy, namespec, old):
+        return (fsm_state(old.self) == SupvisorsStates.OPERATION and valid_strategy(strategy, StartingStrategies)
+                and known_namespec(old.self, namespec))
+
+    def post_prediction_only(self):
+        return (count_effects('starter_model.test_start_processes') == 1
+                and all(no_effect(e) for e in START_STOP_STATE_EFFECTS))
+
+    def exc_RPCError_bad_state(self, exc, old):
+        return (exc.code == BAD_STATE) == (fsm_state(old.self) != SupvisorsStates.OPERATION)
+
+    def exc_RPCError_codes(self, strategy, namespec, exc, old):
+        return code_causes_proc(old.self, strategy, namespec, exc)
+
+    def exc_RPCError_invalid_parameters(self, strategy, namespec, exc, old):
+        return implies(fsm_state(old.self) == SupvisorsStates.OPERATION
+                       and not (valid_strategy(strategy, StartingStrategies) and known_namespec(old.self, namespec)),
+                       exc.code in STRATEGY_CODES)
+
+    def exc_RPCError_no_request(self, exc):
+        return all(no_effect(e) for e in START_STOP_STATE_EFFECTS) and rejected_cleanly(exc)
+
+
+@contract('rpcinterface:RPCInterface.stop_process', props=['C17'])
+class StopProcess:
+    """'stop requests in OPERATION or CONCILIATION'; unknown namespec BAD_NAME; a rejected request emits nothing"""
+    raises = ('RPCError',)
+    types = {'wait': 'bool'}
+    loop0_effects = ('stopper.stop_process',)
+
+    def pre_valid(self):
+        return valid(self) and procs_valid(self.supvisors.context)
+
+    def loop0_inv(self):
+        return True
+
+    def post_served_only_when_acceptable(self, namespec, old):
+        return fsm_state(old.self) in OPERATION_CONCILIATION and known_namespec(old.self, namespec)
+
+    def post_no_start_no_state_change(self):
+        return no_effect('starter.start_application', 'starter.start_process', 'starter.start_applications',
+                         'stopper.restart_process', 'stopper.restart_application', 'fsm.set_state', 'fsm.next')
+
+    def exc_RPCError_bad_state(self, exc, old):
+        return (exc.code == BAD_STATE) == (fsm_state(old.self) not in OPERATION_CONCILIATION)
+
+    def exc_RPCError_codes(self, namespec, exc, old):
+        return (implies(exc.code == Faults.BAD_NAME, not known_namespec(old.self, namespec))
+                and exc.code != NOT_MANAGED and exc.code != Faults.INCORRECT_PARAMETERS)
+
+    def exc_RPCError_invalid_parameters(self, namespec, exc, old):
+        return implies(fsm_state(old.self) in OPERATION_CONCILIATION and not known_namespec(old.self, namespec),
+                       exc.code == Faults.BAD_NAME)
+
+    def exc_RPCError_rejected_cleanly(self, exc):
+        return rejected_cleanly(exc)
+
+
+@contract('rpcinterface:RPCInterface.restart_process', props=['C17'])
+class RestartProcess:
+    """'restart ... in OPERATION only'; unknown strategy INCORRECT_PARAMETERS, unknown namespec BAD_NAME"""
+    raises = ('RPCError',)
+    types = {'wait': 'bool', 'extra_args': 'str'}
+    type_variants = [{'strategy': 'str'}, {'strategy': 'int'}, {'strategy': 'bool'}, {'strategy': 'float'},
+                     {'strategy': 'List[str]'}]
+    loop0_effects = ('stopper.restart_process',)
+
+    def pre_valid(self):
+        return valid(self) and procs_valid(self.supvisors.context)
+
+    def loop0_inv(self):
+        return True
+
+    def post_served_only_when_acceptable(self, strategy, namespec, old):
+        return (fsm_state(old.self) == SupvisorsStates.OPERATION and valid_strategy(strategy, StartingStrategies)
+                and known_namespec(old.self, namespec))
+
+    def post_no_state_change(self):
+        return no_effect('fsm.set_state', 'fsm.next')
+
+    def exc_RPCError_bad_state(self, exc, old):
+        return (exc.code == BAD_STATE) == (fsm_state(old.self) != SupvisorsStates.OPERATION)
+
+    def exc_RPCError_codes(self, strategy, namespec, exc, old):
+        return code_causes_proc(old.self, strategy, namespec, exc)
+
+    def exc_RPCError_invalid_parameters(self, strategy, namespec, exc, old):
+        return implies(fsm_state(old.self) == SupvisorsStates.OPERATION
+                       and not (valid_strategy(strategy, StartingStrategies) and known_namespec(old.self, namespec)),
+                       exc.code in STRATEGY_CODES)
+
+    def exc_RPCError_rejected_cleanly(self, exc):
+        return rejected_cleanly(exc)
+
+
+@contract('rpcinterface:RPCInterface.start_any_process', props=['C17'])
+class StartAnyProcess:
+    """'start ... in OPERATION only'; unknown strategy INCORRECT_PARAMETERS; every escaping exception is an RPCError
+    (start_process is inlined: the namespec passed is the one of a process found in the Context)"""
+    raises = ('RPCError',)
+    types = {'wait': 'bool', 'extra_args': 'str', 'regex': 'str'}
+    type_variants = [{'strategy': 'str'}, {'strategy': 'int'}, {'strategy': 'bool'}, {'strategy': 'float'},
+                     {'strategy': 'List[str]'}]
+    inline = ['rpcinterface:RPCInterface.start_process']
+
+    def pre_valid(self):
+        return valid(self) and procs_valid(self.supvisors.context)
+
+    def loop0_inv(self, namespec):
+        return namespec is None
+
+    def loop0_modifies(self):
+        return []
+
+    def post_served_only_when_acceptable(self, strategy, old):
+        return fsm_state(old.self) == SupvisorsStates.OPERATION and valid_strategy(strategy, StartingStrategies)
+
+    def post_no_stop_no_state_change(self):
+        return no_effect('stopper.stop_application', 'stopper.stop_process', 'stopper.restart_process',
+                         'stopper.restart_application', 'fsm.set_state', 'fsm.next')
+
+    def exc_RPCError_bad_state(self, exc, old):
+        return (exc.code == BAD_STATE) == (fsm_state(old.self) != SupvisorsStates.OPERATION)
+
+    def exc_RPCError_codes(self, strategy, exc, old):
+        # no converse 'INCORRECT_PARAMETERS only for an unknown strategy' here: the statement does not ask for it and
+        # the regex is a second parameter that can be incorrect (strings are uninterpreted: its validity is not modelled)
+        return exc.code != NOT_MANAGED
+
+    def exc_RPCError_invalid_parameters(self, strategy, exc, old):
+        return implies(fsm_state(old.self) == SupvisorsStates.OPERATION
+                       and not valid_strategy(strategy, StartingStrategies), exc.code == Faults.INCORRECT_PARAMETERS)
+
+    def exc_RPCError_rejected_cleanly(self, exc):
+        return rejected_cleanly(exc)
+
+
+# ------------------------------------------------------------------------------------------ other commands
+@contract('rpcinterface:RPCInterface.conciliate', props=['C17'])
+class Conciliate:
+    """'conciliate in CONCILIATION ... otherwise raises BAD_SUPVISORS_STATE without any effect', 'unknown strategies
+    INCORRECT_PARAMETERS'"""
+    raises = ('RPCError',)
+    returns = 'bool'
+    type_variants = [{'strategy': 'str'}, {'strategy': 'int'}, {'strategy': 'bool'}, {'strategy': 'float'},
+                     {'strategy': 'List[str]'}]
+
+    def pre_valid(self):
+        return valid(self)
+
+    def post_served_only_when_acceptable(self, strategy, old):
+        return (fsm_state(old.self) == SupvisorsStates.CONCILIATION
+                and valid_strategy(strategy, ConciliationStrategies))
+
+    def post_conciliation_iff_not_user(self, strategy, result):
+        user = designates(strategy, ConciliationStrategies.USER)
+        return (result == (not user) and count_effects('conciliate_conflicts') == (0 if user else 1)
+                and no_effect('fsm.set_state', 'fsm.next'))
+
+    def exc_RPCError_bad_state(self, exc, old):
+        return (exc.code == BAD_STATE) == (fsm_state(old.self) != SupvisorsStates.CONCILIATION)
+
+    def exc_RPCError_incorrect_parameters(self, strategy, exc, old):
+        return (exc.code in (BAD_STATE, Faults.INCORRECT_PARAMETERS)
+                and implies(exc.code == Faults.INCORRECT_PARAMETERS,
+                            not valid_strategy(strategy, ConciliationStrategies)))
+
+    def exc_RPCError_rejected_cleanly(self, exc):
+        return rejected_cleanly(exc)
+
+
+@contract('rpcinterface:RPCInterface.restart_sequence', props=['C17'])
+class RestartSequence:
+    """'restart_sequence in OPERATION only ... otherwise raises BAD_SUPVISORS_STATE without any effect' (the method
+    also answers BAD_SUPVISORS_STATE in OPERATION while starting / stopping jobs are in progress somewhere)"""
+    raises = ('RPCError',)
+    types = {'wait': 'bool'}
+
+    def pre_valid(self):
+        return valid(self)
+
+    def post_served_only_in_operation(self, old):
+        return fsm_state(old.self) == SupvisorsStates.OPERATION
+
+    def post_sequence_requested(self):
+        return (count_effects('starter.start_applications') == 1
+                and no_effect('stopper.stop_application', 'stopper.stop_process', 'fsm.set_state', 'fsm.next'))
+
+    def exc_RPCError_bad_state(self, exc, old):
+        return implies(fsm_state(old.self) != SupvisorsStates.OPERATION, exc.code == BAD_STATE)
+
+    def exc_RPCError_codes(self, exc):
+        return exc.code in (BAD_STATE, Faults.ABNORMAL_TERMINATION)
+
+    def exc_RPCError_rejected_cleanly(self, exc):
+        return rejected_cleanly(exc)
+
+
+@contract('rpcinterface:RPCInterface.enable', props=['C17'])
+class Enable:
+    """'enable ... in OPERATION only ... otherwise raises BAD_SUPVISORS_STATE without any effect'; unknown program
+    BAD_NAME"""
+    raises = ('RPCError',)
+    types = {'wait': 'bool'}
+
+    def pre_valid(self):
+        return valid(self)
+
+    def post_served_only_when_acceptable(self, program_name, old):
+        return (fsm_state(old.self) == SupvisorsStates.OPERATION
+                and program_name in old.self.supvisors.server_options.program_configs)
+
+    def post_enabled(self, program_name):
+        return (count_effects('supervisor_updater.enable_program') == 1
+                and effect_at('supervisor_updater.enable_program', 0)[0] == program_name
+                and no_effect('starter.start_process', 'stopper.stop_process', 'fsm.set_state', 'fsm.next'))
+
+    def exc_RPCError_bad_state(self, exc, old):
+        return (exc.code == BAD_STATE) == (fsm_state(old.self) != SupvisorsStates.OPERATION)
+
+    def exc_RPCError_bad_name(self, program_name, exc, old):
+        return (exc.code in (BAD_STATE, Faults.BAD_NAME)
+                and implies(exc.code == Faults.BAD_NAME,
+                            program_name not in old.self.supvisors.server_options.program_configs))
+
+    def exc_RPCError_rejected_cleanly(self, exc):
+        return rejected_cleanly(exc)
+
+
+# ------------------------------------------------------------------------------------------ restart / shutdown / end_sync
+def master_known(rpc):
+    sv = rpc.supvisors
+    return sv.state_modes.instance_state_modes[sv.mapper.local_identifier].master_identifier != ''
+
+
+def fsm_valid(fsm):
+    sv = fsm.supvisors
+    return (sv.state_modes.supvisors is sv and sv.mapper.local_identifier in sv.state_modes.instance_state_modes
+            and sv.mapper.local_identifier != '')
+
+
+def fsm_master(fsm):
+    sv = fsm.supvisors
+    return sv.state_modes.instance_state_modes[sv.mapper.local_identifier].master_identifier
+
+
+@contract('statemachine:FiniteStateMachine.on_restart', props=['C17'])
+class FsmOnRestart:
+    """internal handler behind the restart XML-RPC (contract from the code): the request is applied (Master) or
+    re-routed to the known Master; RuntimeError exactly when no Master is known - which the XML-RPC must turn into
+    BAD_SUPVISORS_STATE ('any raised exception is an RPCError, incl. through fsm.on_restart', DESIGN C17)"""
+    raises = ('RuntimeError',)
+
+    def pre_valid(self):
+        return fsm_valid(self)
+
+    def post_applied_or_rerouted(self, old):
+        return (fsm_master(old.self) != ''
+                and count_effects('fsm.set_state') + count_effects('rpc_handler.send_restart_all') == 1)
+
+    def exc_RuntimeError_no_master(self, old):
+        return fsm_master(old.self) == '' and no_effect() and unchanged()
+
+
+@contract('statemachine:FiniteStateMachine.on_shutdown', props=['C17'])
+class FsmOnShutdown:
+    """internal handler behind the shutdown XML-RPC (contract from the code): ValueError exactly when no Master is
+    known"""
+    raises = ('ValueError',)
+
+    def pre_valid(self):
+        return fsm_valid(self)
+
+    def post_applied_or_rerouted(self, old):
+        return (fsm_master(old.self) != ''
+                and count_effects('fsm.set_state') + count_effects('rpc_handler.send_shutdown_all') == 1)
+
+    def exc_ValueError_no_master(self, old):
+        return fsm_master(old.self) == '' and no_effect() and unchanged()
+
+
+@contract('statemachine:FiniteStateMachine.on_end_sync', props=['C17'])
+class FsmOnEndSync:
+    """internal handler behind the end_sync XML-RPC: 'any raised exception is an RPCError, incl. through
+    fsm.on_end_sync' - nothing escapes; an election takes place only when the user gave no Master, then the FSM is
+    re-evaluated once (which may change everything, including the Master: no claim on the final state)"""
+    raises = ()
+
+    def pre_valid(self):
+        return fsm_valid(self)
+
+    def post_master_then_next(self, master_identifier):
+        return (count_effects('fsm.next') == 1
+                and implies(master_identifier != '', no_effect('state_modes.select_master'))
+                and implies(master_identifier == '', count_effects('state_modes.select_master') == 1))
+
+
+@contract('rpcinterface:RPCInterface.restart', props=['C17'])
+class Restart:
+    """'restart/shutdown from DISTRIBUTION on - and otherwise raises BAD_SUPVISORS_STATE without any effect'; docstring:
+    'BAD_SUPVISORS_STATE if Supvisors is still in state SYNCHRONIZATION or has no Master instance to perform the
+    request'.  fsm.on_restart is inlined (real code)."""
+    raises = ('RPCError',)
+    returns = 'bool'
+    inline = ['statemachine:FiniteStateMachine.on_restart']
+
+    def pre_valid(self):
+        return valid(self)
+
+    def post_served_only_from_distribution(self, old):
+        return fsm_state(old.self) in FROM_DISTRIBUTION
+
+    def post_applied_or_rerouted(self):
+        return (count_effects('fsm.set_state') + count_effects('rpc_handler.send_restart_all') == 1
+                and no_effect('rpc_handler.send_shutdown_all'))
+
+    def exc_RPCError_bad_state(self, exc, old):
+        return exc.code == BAD_STATE and (fsm_state(old.self) not in FROM_DISTRIBUTION or not master_known(old.self))
+
+    def exc_RPCError_rejected_cleanly(self, exc):
+        return rejected_cleanly(exc)
+
+
+@contract('rpcinterface:RPCInterface.shutdown', props=['C17'])
+class Shutdown:
+    """'restart/shutdown from DISTRIBUTION on - and otherwise raises BAD_SUPVISORS_STATE without any effect'.
+    fsm.on_shutdown is inlined (real code)."""
+    raises = ('RPCError',)
+    returns = 'bool'
+    inline = ['statemachine:FiniteStateMachine.on_shutdown']
+
+    def pre_valid(self):
+        return valid(self)
+
+    def post_served_only_from_distribution(self, old):
+        return fsm_state(old.self) in FROM_DISTRIBUTION
+
+    def post_applied_or_rerouted(self):
+        return (count_effects('fsm.set_state') + count_effects('rpc_handler.send_shutdown_all') == 1
+                and no_effect('rpc_handler.send_restart_all'))
+
+    def exc_RPCError_bad_state(self, exc, old):
+        return exc.code == BAD_STATE and (fsm_state(old.self) not in FROM_DISTRIBUTION or not master_known(old.self))
+
+    def exc_RPCError_rejected_cleanly(self, exc):
+        return rejected_cleanly(exc)
+
+
+@contract('rpcinterface:RPCInterface.end_sync', props=['C17'])
+class EndSync:
+    """'end_sync in SYNCHRONIZATION with the USER option ... and otherwise raises BAD_SUPVISORS_STATE without any
+    effect', 'Unknown ... instance names raise BAD_NAME' (DESIGN: SYNCHRONIZATION and USER and no Master yet; the code
+    answers NOT_APPLICABLE, not BAD_SUPVISORS_STATE, when USER is not in synchro_options - the statement only requires
+    that the request is not served, see post_served_only_when_acceptable).  fsm.on_end_sync is inlined (real code)."""
+    raises = ('RPCError',)
+    returns = 'bool'
+    types = {'master': 'str'}
+    inline = ['statemachine:FiniteStateMachine.on_end_sync']
+
+    def pre_valid(self):
+        sv = self.supvisors
+        return (valid(self)
+                and forall(str, lambda i: implies(i in sv.mapper.instances, i in sv.context.instances)))
+
+    def post_served_only_when_acceptable(self, old):
+        return (fsm_state(old.self) == SupvisorsStates.SYNCHRONIZATION and not master_known(old.self)
+                and SynchronizationOptions.USER in old.self.supvisors.options.synchro_options)
+
+    def post_known_running_master(self, master, old):
+        sv = old.self.supvisors
+        return implies(master != '', exists(str, lambda i: i in sv.mapper.instances
+                                            and sv.context.instances[i]._state == SupvisorsInstanceStates.RUNNING))
+
+    def post_fsm_triggered_once(self):
+        return count_effects('fsm.next') == 1 and no_effect('starter.start_process', 'stopper.stop_process')
+
+    def exc_RPCError_bad_state(self, exc, old):
+        return (implies(fsm_state(old.self) != SupvisorsStates.SYNCHRONIZATION, exc.code == BAD_STATE)
+                and implies(exc.code == BAD_STATE,
+                            fsm_state(old.self) != SupvisorsStates.SYNCHRONIZATION or master_known(old.self)))
+
+    def exc_RPCError_codes(self, master, exc, old):
+        return (exc.code in (BAD_STATE, NOT_APPLICABLE, Faults.BAD_NAME, Faults.INCORRECT_PARAMETERS, Faults.NOT_RUNNING)
+                and implies(exc.code == NOT_APPLICABLE,
+                            SynchronizationOptions.USER not in old.self.supvisors.options.synchro_options)
+                and implies(exc.code == Faults.BAD_NAME, master != ''))
+
+    def exc_RPCError_nothing_triggered(self, exc):
+        return no_effect() and unchanged()
+
+
+@contract('rpcinterface:RPCInterface.update_numprocs', props=['C17'])
+class UpdateNumprocs:
+    """'update_numprocs ... in OPERATION only ... otherwise raises BAD_SUPVISORS_STATE without any effect'; unknown
+    program BAD_NAME; numprocs not strictly positive INCORRECT_PARAMETERS.  The post-checks _check_process_insertion /
+    _decrease_numprocs are taken by assumed contracts (see not_decided)."""
+    raises = ('RPCError',)
+    types = {'numprocs': 'int', 'wait': 'bool', 'lazy': 'bool'}
+
+    def pre_valid(self):
+        return valid(self)
+
+    def post_served_only_when_acceptable(self, program_name, numprocs, old):
+        return (fsm_state(old.self) == SupvisorsStates.OPERATION and numprocs > 0
+                and program_name in old.self.supvisors.server_options.program_configs)
+
+    def post_update_requested(self, program_name, numprocs):
+        return (count_effects('supervisor_updater.update_numprocs') == 1
+                and effect_at('supervisor_updater.update_numprocs', 0)[0] == program_name
+                and effect_at('supervisor_updater.update_numprocs', 0)[1] == numprocs
+                and no_effect('starter.start_process', 'fsm.set_state', 'fsm.next'))
+
+    def exc_RPCError_bad_state(self, exc, old):
+        return (exc.code == BAD_STATE) == (fsm_state(old.self) != SupvisorsStates.OPERATION)
+
+    def exc_RPCError_codes(self, program_name, numprocs, exc, old):
+        return (implies(exc.code == Faults.BAD_NAME,
+                        program_name not in old.self.supvisors.server_options.program_configs)
+                and implies(exc.code == Faults.INCORRECT_PARAMETERS, numprocs <= 0)
+                and exc.code != NOT_MANAGED)
+
+    def exc_RPCError_invalid_parameters(self, program_name, numprocs, exc, old):
+        return implies(fsm_state(old.self) == SupvisorsStates.OPERATION
+                       and (numprocs <= 0 or program_name not in old.self.supvisors.server_options.program_configs),
+                       exc.code in STRATEGY_CODES)
+
+    def exc_RPCError_rejected_cleanly(self, exc):
+        return rejected_cleanly(exc)
+
+
+# ------------------------------------------------------------------------------------------ status queries
+@contract('rpcinterface:RPCInterface.get_application_info', props=['C17'])
+class GetApplicationInfo:
+    """'status queries from DISTRIBUTION on ... otherwise raises BAD_SUPVISORS_STATE without any effect'; unknown
+    application BAD_NAME; a status query never triggers anything"""
+    raises = ('RPCError',)
+    returns = 'Payload'
+
+    def pre_valid(self):
+        return cmd_valid(self)
+
+    def post_served_only_when_acceptable(self, application_name, old):
+        return fsm_state(old.self) in FROM_DISTRIBUTION and known_app(old.self, application_name)
+
+    def post_read_only(self):
+        return no_effect() and unchanged()
+
+    def exc_RPCError_bad_state(self, exc, old):
+        return (exc.code == BAD_STATE) == (fsm_state(old.self) not in FROM_DISTRIBUTION)
+
+    def exc_RPCError_bad_name(self, application_name, exc, old):
+        return (exc.code in (BAD_STATE, Faults.BAD_NAME)
+                and implies(exc.code == Faults.BAD_NAME, not known_app(old.self, application_name)))
+
+    def exc_RPCError_rejected_cleanly(self, exc):
+        return no_effect() and unchanged()
